@@ -62,17 +62,33 @@ def plan(tier, seed):
         for a, b in E.chunks(256, 16):
             for fmt in ("txt", "csv"):
                 shards.append(("lat", mt, fmt, a, b))
+    # the dataset need not be float64: integer and single-precision feature matrices
+    for mt in ("euclidean", "log_squared_euclidean", "bray_curtis"):
+        for dt in ("int64", "float32"):
+            for fmt in ("txt", "csv"):
+                shards.append(("fixed-dtype", 0, mt, fmt, dt))
     return shards
 
 
 def warm():
-    from mc.warm import warm_metrics
+    from mc.warm import warm_metrics, warm_dtypes
     warm_metrics()
+    warm_dtypes(["euclidean", "log_squared_euclidean", "bray_curtis", "squared_euclidean"])
 
 
 def dataset(shard, seed):
     sc = [1.0, 0.5, 2.0, 3.0][seed % 4] if seed else 1.0
-    if shard[0] == "fixed":
+    if shard[0] == "fixed-dtype":
+        _, fi, metric, fmt, dt = shard
+        X = np.array(FIXED[fi], dtype=float) * (2.0 if not seed else float(1 + seed % 3))
+        if not is_norm(metric):
+            X = X + 1.0
+        if dt == "float32":
+            X = X + 0.3          # not representable in single precision
+        DTYPE[0] = dt
+        yield X.tolist(), FIXED_LABELS[fi], metric, fmt
+        DTYPE[0] = None
+    elif shard[0] == "fixed":
         _, fi, metric, fmt = shard
         X = np.array(FIXED[fi], dtype=float) * sc
         if not is_norm(metric):
@@ -86,6 +102,13 @@ def dataset(shard, seed):
             yield [list(pts[i]) for i in seq], [0, 1, 0, 1], metric, fmt
 
 
+DTYPE = [None]
+
+
+def as_data(prog_or_X, dt):
+    return np.array(prog_or_X, dtype=float).astype(np.dtype(dt) if dt else float)
+
+
 def splits(N):
     for size in range(2, N):
         for train in itertools.permutations(range(N), size):
@@ -95,6 +118,8 @@ def splits(N):
 def model_programs(X, Y, metric, fmt):
     N = len(X)
     base = {"data": X, "labels": Y, "metric": metric, "fmt": fmt}
+    if DTYPE[0]:
+        base["dtype"] = DTYPE[0]
     for train, test in splits(N):
         ylab = [Y[i] for i in train]
         if len(set(ylab)) >= 2:
@@ -122,10 +147,10 @@ def model_programs(X, Y, metric, fmt):
                 yield p
 
 
-def write_matrix(X, metric, fmt, tmpdir):
+def write_matrix(X, metric, fmt, tmpdir, dt=None):
     import opfython.math.general as g
     path = os.path.join(tmpdir, "dist_%s.%s" % (metric, fmt))
-    g.pre_compute_distance(np.array(X, dtype=float), path, metric)
+    g.pre_compute_distance(as_data(X, dt), path, metric)
     return path
 
 
@@ -141,7 +166,7 @@ def node_state(m):
 
 def build_pair(prog, path):
     import opfython.models as M
-    X = np.array(prog["data"], dtype=float)
+    X = as_data(prog["data"], prog.get("dtype"))
     Y = np.array(prog["labels"], dtype=int)
     tr = np.array(prog["train"], dtype=int)
     te = np.array(prog["test"], dtype=int)
@@ -199,7 +224,7 @@ def distances_case(prog, res=None):
     """get_distances() of a fitted model == metric on every ordered pair."""
     import opfython.models as M
     import opfython.math.distance as D
-    X = np.array(prog["data"], dtype=float)
+    X = as_data(prog["data"], prog.get("dtype"))
     Y = np.array(prog["labels"], dtype=int)
     tr = np.array(prog["train"], dtype=int)
     fn = D.DISTANCES[prog["metric"]]
@@ -244,7 +269,7 @@ def run(shard, seed):
         first = True
         for X, Y, metric, fmt in dataset(shard, seed):
             try:
-                path = write_matrix(X, metric, fmt, tmpdir)
+                path = write_matrix(X, metric, fmt, tmpdir, DTYPE[0])
             except Exception as ex:
                 res.violations.append(viol({"data": X, "labels": Y, "metric": metric, "fmt": fmt,
                                             "model": "SupervisedOPF", "train": [0, 1], "test": [2]},
@@ -283,7 +308,7 @@ def replay(case):
     tmpdir = tempfile.mkdtemp(prefix="c10-", dir=scratch_dir())
     try:
         try:
-            path = write_matrix(prog["data"], prog["metric"], prog["fmt"], tmpdir)
+            path = write_matrix(prog["data"], prog["metric"], prog["fmt"], tmpdir, prog.get("dtype"))
         except Exception as ex:
             return viol(prog, "pre_compute_distance raised %r" % (ex,),
                         "raised %s (writing)" % type(ex).__name__)
